@@ -106,3 +106,42 @@ package backup
 //@   ensures  every-member-is-found: (forall k :: 0 <= k && k < len(slice) ==> slice[k] != s) ==> !result
 //@   ensures  false-only-if-absent: !result ==> (forall k :: 0 <= k && k < len(slice) ==> slice[k] != s)
 //@   loop 0 invariant none-so-far: forall j :: 0 <= j && j < range_i ==> slice[j] != s
+//
+// restoreByName makes the local data directory equal to the backup: a local file is removed only if the backup does
+// not hold it, and a remote file is fetched exactly when it is not among the local files. Thin contract.
+//@ func os.MkdirAll
+//@   property C19
+//@   assumed operating system
+//@ func os.Remove
+//@   property C19
+//@   assumed operating system
+//@ func filepath.Dir
+//@   property C19
+//@   assumed pure path manipulation
+//@   pure
+//@ func context.Background
+//@   property C19
+//@   assumed standard library
+//@ func validatedRemoteRelPath
+//@   property C19
+//@   assumed for this contract: pure path manipulation and validation
+//@   pure
+//@ func getAllFiles
+//@   property C19
+//@   assumed for this contract: lists the files under a directory
+//@ func cleanEmptyDirs
+//@   property C19
+//@   assumed for this contract: removes empty directories only
+//@ func downloadFile
+//@   property C19
+//@   assumed for this contract: fetches one remote file
+//@ func filepath.Join
+//@   property C19
+//@   assumed pure path manipulation
+//@   pure
+//@ func restoreByName#local-tree-becomes-the-backup
+//@   property C19
+//@   mode int
+//@   opt only-stated
+//@   at-call os.Remove requires only-files-the-backup-does-not-hold-are-removed: !remoteRelSet[localRelPathWithCatalog]
+//@   at-call downloadFile requires fetched-when-not-already-local: forall k :: 0 <= k && k < len(localFiles) ==> localFiles[k] != relPath
